@@ -333,7 +333,10 @@ func runHistory(spec *SeqSpec, hist []SeqEvent) *SeqRun {
 				tid, _ = daemonTids()
 				pick = e.Pick
 			case "env":
-				if e.Op.K == "sweep" {
+				if e.Op.K == "sweep" || e.Op.K == "advance+sweep" {
+					if e.Op.K == "advance+sweep" {
+						runOp(c, Op{K: "advance", N: e.Op.N})
+					}
 					// compound event: deliver a tick and let the applier process it at once
 					runOp(c, Op{K: "tick"})
 					for guard := 0; guard < 4 && tickPending() > 0; guard++ {
@@ -658,7 +661,7 @@ func seqSearch(p *Prop, j *Job, spec *SeqSpec) *JobResult {
 			idle := t >= len(r.Post.ClientState) || r.Post.ClientState[t] == 'i'
 			for _, o := range ops {
 				o := o
-				if o.K == "advance" || o.K == "tick" || o.K == "sweep" || o.K == "drain" {
+				if o.K == "advance" || o.K == "tick" || o.K == "sweep" || o.K == "drain" || o.K == "advance+sweep" {
 					if t == 0 {
 						out = append(out, SeqEvent{K: "env", Op: &o})
 					}
